@@ -516,6 +516,9 @@ func (o *c15Obs) After(w *wWorld, st *wStep) *kit.Viol {
 					return false
 				}
 				if st.Op.K == "leave" {
+					if st.Op.F && st.Route == r && st.ok() && sess < len(w.sess) && w.sess[sess] != nil && w.sess[sess].user == st.User {
+						return true // leaving for good detaches every session of that user, the party's included
+					}
 					return st.Sess == sess && st.Route == r && st.ok()
 				}
 				return st.Op.S == sess
